@@ -59,7 +59,13 @@ def c19():
     return [atomic.AtomicWrite()]
 
 
+def c18():
+    from harness import includes
+    return [includes.ReadNewFile()]
+
+
 REGISTRY = {
+    'C18': dict(harnesses=c18, run=_runner('C18', c18)),
     'C19': dict(harnesses=c19, run=_runner('C19', c19)),
     'C05': dict(harnesses=c05, run=_runner('C05', c05)),
     'C09': dict(harnesses=c09, run=_runner('C09', c09)),
